@@ -59,15 +59,22 @@ pub fn inject(rng: &mut Rng, dev: &str, b: &mut [u8], img: &Image) -> Option<Str
             if img.fat.len() <= img.nsect {
                 return None;
             }
-            // all cells beyond the end of the file (they are FREE in a valid file)
+            // cells beyond the end of the file (they are FREE in a valid file): all of them,
+            // or only a suffix / a prefix of the padding area (mixed FREE and zero padding)
+            let span = img.fat.len() - img.nsect;
+            let (lo, hi) = match rng.below(4) {
+                0 | 1 => (img.nsect, img.fat.len()),
+                2 => (img.nsect + rng.usize_below(span), img.fat.len()),
+                _ => (img.nsect, img.nsect + 1 + rng.usize_below(span)),
+            };
             let mut n = 0;
-            for i in img.nsect..img.fat.len() {
+            for i in lo..hi {
                 if let Some(off) = img.fat_cell_off(i) {
                     wr32(b, off, 0);
                     n += 1;
                 }
             }
-            Some(format!("{n} FAT cells beyond the last sector zeroed"))
+            Some(format!("FAT cells {lo}..{hi} (of the {span} beyond the last sector) zeroed ({n} cells)"))
         }
         "zero_padded_difat" => {
             let last = *img.difat_sectors.last()?;
@@ -142,7 +149,7 @@ pub fn inject(rng: &mut Rng, dev: &str, b: &mut [u8], img: &Image) -> Option<Str
         }
         "wrong_root_name" => {
             let e = &img.entries[0];
-            let name = *rng.pick(&["R", "Root entry", "ROOT ENTRY", "Racine", "\u{30eb}\u{30fc}\u{30c8}"]);
+            let name = *rng.pick(&["R", "Root entry", "ROOT ENTRY", "Racine", "\u{30eb}\u{30fc}\u{30c8}", "C:\\docs\\report.doc", "a/b", "Root!", "x:y", "name_of_exactly_31_utf16_units_"]);
             for i in 0..32 {
                 wr16(b, e.off + 2 * i, 0);
             }
